@@ -15,3 +15,40 @@ def rules(ctx):
     ctx.floor("C15.dim-bosonic", 14)
     ctx.floor("C15.dim-apps", 5)
     ctx.floor("C15.alias", 6)
+    hbar_source(ctx)
+
+
+def hbar_source(ctx, rule="C15.hbar-source"):
+    """WHEN the global convention is read: state objects answer in the hbar they were created with, operations convert at
+    application time"""
+    import ast
+    from ..loader import dotted, walk_no_nested
+    ctx.explain(f"{rule}: sf.hbar is a mutable global. (a) In backends/states.py only BaseState.__init__ reads it (the state stores it "
+                "as self._hbar; every formula uses the stored value - a state made at hbar=1 must not change its answers when sf.hbar is "
+                "set to 2 afterwards). (b) In ops.py no constructor reads it or stores a value derived from it in the operation "
+                "(operations, e.g. the import-time singletons MeasureX / MeasureP, are built before the user sets hbar); exempt: "
+                "Gaussian.__init__, which converts the covariance the user supplies in the convention of that moment.")
+    def reads(f):
+        return [n for n in ast.walk(f.node) if isinstance(n, ast.Attribute) and dotted(n) in ("sf.hbar", "strawberryfields.hbar")]
+    n = 0
+    m = ctx.tree.module("backends/states.py")
+    for f in m.functions.values():
+        n += 1
+        r = reads(f) if f.qualname != "BaseState.__init__" else []
+        ctx.ob(rule, f.site, not r, "" if not r else f"{f.qualname} reads the global sf.hbar instead of the value the state was created "
+               "with (self._hbar)", role="state-uses-stored-hbar", line=(r[0].lineno if r else f.node.lineno))
+    # module level of states.py
+    top = [n for st in m.tree.body if not isinstance(st, (ast.FunctionDef, ast.ClassDef)) for n in ast.walk(st)
+           if isinstance(n, ast.Attribute) and dotted(n) in ("sf.hbar", "strawberryfields.hbar")]
+    ctx.ob(rule, "backends/states.py::<module>", not top, "" if not top else "module-level code of states.py reads sf.hbar at import time",
+           role="state-module-level", line=(top[0].lineno if top else 1))
+    o = ctx.tree.module("ops.py")
+    for f in o.functions.values():
+        if f.name not in ("__init__", "__new__") or f.qualname == "Gaussian.__init__":
+            continue
+        n += 1
+        r = reads(f)
+        ctx.ob(rule, f.site, not r, "" if not r else f"{f.qualname} reads sf.hbar when the operation is CONSTRUCTED: the conversion factor "
+               "is frozen before the user sets hbar (import-time singletons keep hbar = 2 for ever)", role="op-ctor-no-hbar",
+               line=(r[0].lineno if r else f.node.lineno))
+    ctx.floor(rule, 60)
